@@ -259,14 +259,15 @@ V_HARNESS(h_idl_a_seq)
 /* ---- 2. the library's CRC table against the bit serial reference, all 256 entries ------------ */
 V_HARNESS(h_idl_crc_table)
 {
-  unsigned i; vbi_bool r;
+  unsigned i, chan, addr; vbi_bool r;
   V_INIT();
-  r = _vbi_idl_demux_init(&DX, _VBI_IDL_FORMAT_A, in_u8() & 15, in_u32() & 0xFFFFFF, idl_cb, &cb_n);
+  chan = in_u8() & 15; addr = in_u32() & 0xFFFFFF;
+  r = _vbi_idl_demux_init(&DX, _VBI_IDL_FORMAT_A, chan, addr, idl_cb, &cb_n);
   V_ASSERT(r, "idl_init_ok");
   for (i = 0; i < 256; i++)
     V_ASSERT(idl_a_crc_table[i] == c15_crc_byte(0, i), "idl_crc_table_entry");
   V_ASSERT(idl_a_crc_table[1] != 0, "idl_crc_table_init_guard");	/* _vbi_idl_demux_init uses entry 1 as "initialised" mark */
-  V_ASSERT(DX.ci < 0 && DX.ri < 0 && DX.channel == (int) (VINS.b[0] & 15), "idl_init_state");
+  V_ASSERT(DX.ci < 0 && DX.ri < 0 && DX.channel == (int) chan && DX.address == (int) addr, "idl_init_state");
   V_END();
 }
 
@@ -310,51 +311,77 @@ V_HARNESS(h_idl_a_first_flags)
 }
 
 /* ---- 4. Hamming 8/4 protected header bytes ------------------------------------------------------
- * One clean packet for our channel/address; for every header byte position (concrete loop) the byte is replaced
- * by a symbolic value that is either within distance 1 of the sent code word (must be corrected: same delivery)
- * or not decodable (must be refused: FALSE, nothing delivered, demux state untouched). */
+ * One clean packet for our channel/address; every header byte position in turn (concrete loop) is replaced:
+ *   channel, designation, SPA nibbles: by a symbolic value that is either within distance 1 of the sent code word
+ *     (must be corrected: same delivery) or not decodable (must be refused: FALSE, nothing delivered, state untouched);
+ *   FT and IAL (the demux derives the packet layout from them: concrete, CBMC rule 2): by the code word with bit HBIT
+ *     flipped (corrected) and with bits HBIT and HBIT+3 flipped (refused). */
+#ifndef HBIT
+#define HBIT 2
+#endif
+static unsigned ham_n; static uint8_t ham_first;
+static void ham_try(const uint8_t pk[42], unsigned res, unsigned p, uint8_t v)
+{
+  uint8_t pk2[42]; unsigned i, before = cb_n; int d = ref_unham8(v), o_ci, o_ri; unsigned o_fl; vbi_bool r;
+  vbi_idl_demux_reset(&DX); DX.flags = 0;			/* fresh demux for every try */
+  o_ci = DX.ci; o_ri = DX.ri; o_fl = DX.flags;
+  for (i = 0; i < 42; i++) pk2[i] = pk[i];
+  pk2[p] = v;
+  r = idl_feed(pk2, 1, res);
+  if (d < 0) {
+    V_ASSERT(!r, "idl_uncorrectable_returns_false");
+    V_ASSERT(cb_n == before, "idl_uncorrectable_not_delivered");
+    V_ASSERT(DX.ci == o_ci && DX.ri == o_ri && DX.flags == o_fl, "idl_uncorrectable_state_untouched");
+  } else {
+    V_ASSERT(r && cb_n == before + 1, "idl_corrected_delivered");
+    if (cb_n >= 1 && cb_n <= LOGMAX) {
+      V_ASSERT(cb_log[cb_n - 1].n == ham_n, "idl_delivered_length");
+      V_ASSERT(cb_log[cb_n - 1].d[0] == ham_first && cb_log[cb_n - 1].d[1] == 0x42, "idl_delivered_bytes");
+    }
+    cb_n = 0;							/* keep the log slot free */
+  }
+}
 V_HARNESS(h_idl_a_hamming)
 {
-  unsigned chan, addr, n, p, i, res; static struct slot_in S; uint8_t pk[42], pk2[42]; vbi_bool r;
+  unsigned chan, addr, p, res; static struct slot_in S; uint8_t pk[42]; vbi_bool r; int refused = 0, corrected = 0;
   V_INIT();
   chan = in_u8() & 15; addr = in_u32() & ADDRMASK;
   r = _vbi_idl_demux_init(&DX, _VBI_IDL_FORMAT_A, chan, addr, idl_cb, &cb_n);
   V_ASSERT(r, "idl_init_ok");
   read_slot(&S); light_payload(&S);
-  n = idl_a_send(pk, chan, S.dep, addr, 0x00, S.ci, S.user, S.want, S.fill);
+  ham_n = idl_a_send(pk, chan, S.dep, addr, 0x00, S.ci, S.user, S.want, S.fill); ham_first = S.user[0];
   res = idl_a_residue(pk);
   V_ASSERT(RES_OK(res), "ref_sender_receiver_agree");
   for (p = 0; p < 4 + (SPALEN); p++) {
-    uint8_t v = in_u8(); int d = ref_unham8(v), d0 = ref_unham8(pk[p]);
-    unsigned before = cb_n; int o_ci, o_ri; unsigned o_fl;
-    V_ASSUME(d < 0 || d == d0);
-    vbi_idl_demux_reset(&DX); DX.flags = 0;			/* fresh demux for every position */
-    o_ci = DX.ci; o_ri = DX.ri; o_fl = DX.flags;
-    for (i = 0; i < 42; i++) pk2[i] = pk[i];
-    pk2[p] = v;
-    r = idl_feed(pk2, 1, res);
-    if (d < 0) {
-      V_ASSERT(!r, "idl_uncorrectable_returns_false");
-      V_ASSERT(cb_n == before, "idl_uncorrectable_not_delivered");
-      V_ASSERT(DX.ci == o_ci && DX.ri == o_ri && DX.flags == o_fl, "idl_uncorrectable_state_untouched");
-      if (p == 4 + (SPALEN) - 1) V_REACH("refused");
+    uint8_t v = in_u8();
+    if (p == 2 || p == 3) {
+      uint8_t v1 = pk[p] ^ (uint8_t) (1u << (HBIT)), v2 = v1 ^ (uint8_t) (1u << (((HBIT) + 3) & 7));
+      ham_try(pk, res, p, v1); ham_try(pk, res, p, v2);
     } else {
-      V_ASSERT(r && cb_n == before + 1, "idl_corrected_delivered");
-      if (cb_n <= LOGMAX) { }
+      int d = ref_unham8(v), d0 = ref_unham8(pk[p]);
+      V_ASSUME(d < 0 || d == d0);
+      if (d < 0) refused = 1; else corrected = 1;
+      ham_try(pk, res, p, v);
     }
   }
-  /* the deliveries all carry the sent bytes */
-  for (p = 0; p < LOGMAX; p++) if (p < cb_n) {
-    V_ASSERT(cb_log[p].n == n, "idl_delivered_length");
-    V_ASSERT(cb_log[p].d[0] == S.user[0] && cb_log[p].d[1] == S.user[1], "idl_delivered_bytes");
-  }
-  if (cb_n >= 2) V_REACH("corrected");
+  if (refused) V_REACH("refused");
+  if (corrected) V_REACH("corrected");
   V_END();
 }
 
 /* ---- 5. repeated packets (RI) ---------------------------------------------------------------------
  * Packet A is sent twice (RI = 0x80 "will repeat", copy 0; RI = 0x01, copy 1, last), then packet B once (RI = 0).
- * Every transmission is independently clean, damaged in the check word protected part, or not received at all. */
+ * Every transmission is clean, damaged in the check word protected part (symbolic place and mask), or not received
+ * at all: ST0, ST1, ST2 from the grid. */
+#ifndef ST0
+#define ST0 1
+#endif
+#ifndef ST1
+#define ST1 0
+#endif
+#ifndef ST2
+#define ST2 0
+#endif
 #if H_RI
 V_HARNESS(h_idl_a_repeat)
 {
@@ -367,7 +394,8 @@ V_HARNESS(h_idl_a_repeat)
   read_slot(&A); read_slot(&B); light_payload(&A); light_payload(&B);
   V_ASSUME(A.user[0] != B.user[0]);				/* tell A from B */
   B.ci = (A.ci + 1) & 0xFF;					/* consecutive packets of the service */
-  for (k = 0; k < 3; k++) { st[k] = in_u8() % 3; f_pos[k] = in_u8(); f_mask[k] = in_u8(); }	/* 0 clean 1 damaged 2 lost */
+  for (k = 0; k < 3; k++) { (void) in_u8(); f_pos[k] = in_u8(); f_mask[k] = in_u8(); }
+  st[0] = ST0; st[1] = ST1; st[2] = ST2;			/* 0 clean 1 damaged 2 lost: grid (they steer the demux state) */
   for (k = 0; k < 3; k++) {
     unsigned n, res;
     if (k < 2) n = nA = idl_a_send(pk, chan, A.dep, addr, k == 0 ? 0x80 : 0x01, A.ci, A.user, A.want, A.fill);
@@ -405,8 +433,11 @@ V_HARNESS(h_idl_a_repeat)
 #endif
 
 /* ---- 6. the flags argument: continuity gap / check word failure -> DATA_LOST on the NEXT delivery; DEPENDENT ------
- * Three packets for our channel/address, CI symbolic per packet, payload concrete except its first byte (the data
- * path is idl_a_seq1's subject), each packet optionally damaged in its check word (symbolic non-zero mask). */
+ * NGAP packets for our channel/address, CI symbolic per packet, payload concrete except its first byte (the data
+ * path is idl_a_seq1's subject); with GAP_DAMAGE each packet is optionally damaged in its check word (symbolic mask). */
+#ifndef NGAP
+#define NGAP 2
+#endif
 V_HARNESS(h_idl_a_gap_flags)
 {
   unsigned chan, addr, k, i; int m_ci = -1, m_lost = 0; uint8_t pk[42], user[36], fill[36]; vbi_bool r;
@@ -414,8 +445,11 @@ V_HARNESS(h_idl_a_gap_flags)
   chan = in_u8() & 15; addr = in_u32() & ADDRMASK;
   r = _vbi_idl_demux_init(&DX, _VBI_IDL_FORMAT_A, chan, addr, idl_cb, &cb_n);
   V_ASSERT(r, "idl_init_ok");
-  for (k = 0; k < 3; k++) {
+  for (k = 0; k < NGAP; k++) {
     unsigned ci = in_u8(), mask = in_u8(), n, res; int ok; uint8_t first = in_u8();
+#ifndef GAP_DAMAGE
+    mask = 0;
+#endif
     for (i = 0; i < 36; i++) { user[i] = (uint8_t) (0x41 + i); fill[i] = 0x55; }
     V_ASSUME(first != 0x00 && first != 0xFF);			/* no dummy byte business here */
     user[0] = first;
